@@ -25,8 +25,9 @@ def shards(tier):
         for a in A:
             for b in B:
                 out.append({"rec": [list(a), list(b)], "mclass": "gen"})
-        for mc in ("8", "42"):
+        for mc in ("8", "40", "41", "42", "43", "44", "45"):   # every type whose delivery failure must stay unreported
             out.append({"rec": [[1, 0, 0], [2, 1, 0]], "mclass": mc})
+        for mc in ("8", "42"):
             out.append({"rec": [[1, 1, 1], [0, 1, 0]], "mclass": mc})
     else:
         for a, b in itertools.product(one, repeat=2):
